@@ -164,4 +164,9 @@ theorem fact_mem_fields :
       ("x/evm/vm/state_db_snapshot.go", "RtStateDbSnapshot.selfDestructed", "vm.AccountTracker"),
       ("x/evm/vm/state_db_snapshot.go", "RtStateDbSnapshot.touched", "vm.AccountTracker")] := by decide +kernel
 
+/-- every dereference `*x.To()` of a recipient pointer (nil for a contract creation) sits in a function that compares
+a `To()` with nil (finding F21: `NewTracer` did not, so a node configured with `evm.tracer = access_list` panicked
+on contract creations that every other node executed) -/
+theorem fact_to_derefs_guarded : Gen.censusToDerefs.all (fun s => s.2.2 == "guarded") = true := by decide +kernel
+
 end Evermint.Facts.Determinism
